@@ -22,6 +22,7 @@ type HRes struct {
 	Hits  []ObsVal // get / gat hits
 	Miss  []int    // get: indices reported as misses
 	Exps  []uint32 // gete: expiry per hit (same order as Hits)
+	Seq   []int    // get / gete: request indices in the order their answers (hit or miss) arrived
 	Panic string
 	Done  bool
 }
@@ -116,10 +117,12 @@ func hcall(h handlers.Handler, op wire.Op, spare bool) (res HRes) {
 						continue
 					}
 					curKey = r.Key
+					ix := idxOf(r.Opaque)
+					res.Seq = append(res.Seq, ix)
 					if r.Miss {
-						res.Miss = append(res.Miss, idxOf(r.Opaque))
+						res.Miss = append(res.Miss, ix)
 					} else {
-						res.Hits = append(res.Hits, ObsVal{Idx: idxOf(r.Opaque), Key: string(r.Key), Flags: r.Flags, Data: append([]byte(nil), r.Data...)})
+						res.Hits = append(res.Hits, ObsVal{Idx: ix, Key: string(r.Key), Flags: r.Flags, Data: append([]byte(nil), r.Data...)})
 					}
 				case e, ok := <-ec:
 					if !ok {
@@ -139,10 +142,12 @@ func hcall(h handlers.Handler, op wire.Op, spare bool) (res HRes) {
 						continue
 					}
 					curKey = r.Key
+					ix := idxOf(r.Opaque)
+					res.Seq = append(res.Seq, ix)
 					if r.Miss {
-						res.Miss = append(res.Miss, idxOf(r.Opaque))
+						res.Miss = append(res.Miss, ix)
 					} else {
-						res.Hits = append(res.Hits, ObsVal{Idx: idxOf(r.Opaque), Key: string(r.Key), Flags: r.Flags, Data: append([]byte(nil), r.Data...)})
+						res.Hits = append(res.Hits, ObsVal{Idx: ix, Key: string(r.Key), Flags: r.Flags, Data: append([]byte(nil), r.Data...)})
 						res.Exps = append(res.Exps, r.Exptime)
 					}
 				case e, ok := <-ec:
